@@ -232,6 +232,13 @@ pub extern "C" fn write_cb(buf: *const u8, len: u32, ctx: *mut c_void, out: *mut
     unsafe { *out = k };
     0
 }
+static NULL_CTX_SINK: std::sync::atomic::AtomicPtr<c_void> = std::sync::atomic::AtomicPtr::new(std::ptr::null_mut());
+pub extern "C" fn write_cb_nullctx(buf: *const u8, len: u32, _ctx: *mut c_void, out: *mut u32) -> i32 {
+    write_cb(buf, len, NULL_CTX_SINK.load(std::sync::atomic::Ordering::SeqCst), out)
+}
+pub extern "C" fn flush_cb_nullctx(_ctx: *mut c_void) -> i32 {
+    flush_cb(NULL_CTX_SINK.load(std::sync::atomic::Ordering::SeqCst))
+}
 pub extern "C" fn flush_cb(ctx: *mut c_void) -> i32 {
     let c = unsafe { &mut *(ctx as *mut SinkCtx) };
     let i = c.fcalls;
@@ -260,6 +267,9 @@ pub struct SrcCtx {
     // file callback
     skip: Vec<String>,
     null_writer_for: Option<String>,
+    /// the writer handed out for the FIRST file has a NULL context (the context is opaque to the library: an
+    /// index 0, a slot number, callbacks that use globals) — its callbacks find their sink through a global
+    null_ctx_first: bool,
     file_sink: Value,
     fail_file: Option<String>,
     pub files: Vec<(String, Box<SinkCtx>)>,
@@ -327,10 +337,12 @@ pub extern "C" fn file_cb(ctx: *mut c_void, name: *const u8, len: usize, fw: *mu
     let mut sink = Box::new(SinkCtx::from_json(&sv));
     let p = &mut *sink as *mut SinkCtx as *mut c_void;
     let nullw = c.null_writer_for.as_deref() == Some(&n);
+    let nullctx = c.null_ctx_first && c.files.is_empty() && !nullw;
+    if nullctx { NULL_CTX_SINK.store(p, std::sync::atomic::Ordering::SeqCst); }
     unsafe {
-        (*fw).write_callback = if nullw { None } else { Some(write_cb) };
-        (*fw).flush_callback = Some(flush_cb);
-        (*fw).context = p;
+        (*fw).write_callback = if nullw { None } else if nullctx { Some(write_cb_nullctx) } else { Some(write_cb) };
+        (*fw).flush_callback = if nullctx { Some(flush_cb_nullctx) } else { Some(flush_cb) };
+        (*fw).context = if nullctx { std::ptr::null_mut() } else { p };
     }
     c.files.push((n, sink));
     0
@@ -460,6 +472,7 @@ fn run_extract(lib: &Lib, case: &Value, idx: usize, pr: &mut Progress) -> Value 
         eintr_run: 0,
         failed: false,
         skip: list("skip"),
+        null_ctx_first: case["nullCtxFirst"].as_bool().unwrap_or(false),
         null_writer_for: case["nullWriterFor"].as_str().map(|h| String::from_utf8_lossy(&hex::decode(h).unwrap_or_default()).to_string()),
         file_sink: case["fileSink"].clone(),
         fail_file: case["failFile"].as_str().map(|h| String::from_utf8_lossy(&hex::decode(h).unwrap_or_default()).to_string()),
